@@ -122,6 +122,13 @@ class ConfigGraph:
                         note("R9.1-I3-no-zombie", t, stag, stag in a2,
                              f"`{t.tag}` deactivates `{stag}` but does not trash its pending events (history: {tr} -> "
                              f"{t.tag})")
+                    if "C09" in rules and t.facts and sv.facts:
+                        bad = t.facts.changes_trajectory and sv.facts.kinematics_sensitive
+                        note("R9.1-I7-active-unit-changed", t, stag, not bad,
+                             f"`{t.tag}` ({t.handler_cls.name}) hands the velocity to another unit, but the pending "
+                             f"events of the interaction tagger `{stag}` were generated for the previous active unit "
+                             f"and are neither trashed nor re-created: they differ from what `{stag}` generates from "
+                             f"scratch for the new active state (history: {tr} -> {t.tag})")
                     if "C08" in rules and t.facts and sv.facts:
                         bad = t.facts.changes_trajectory and sv.facts.kinematics_sensitive
                         note("R8.1-I3-stale-candidate", t, stag, not bad,
